@@ -70,6 +70,15 @@ def Out.isPanic {α} : Out α → Bool
   | .panic _ => true
   | _ => false
 
+/-- the panic site, if the outcome is a panic -/
+def Out.site? {α} : Out α → Option Site
+  | .panic s => some s
+  | _ => none
+
+def Out.isErr {α} : Out α → Bool
+  | .err => true
+  | _ => false
+
 def Out.cls {α} : Out α → String
   | .ok _ => "ok"
   | .err => "err"
@@ -501,31 +510,35 @@ def befpVerifyShares (vr : NsProof → NsHash → List Bytes → Bytes → Excep
       (ofNmt (vr s.proof root [s.share] s.ns)).bind fun _ =>
         befpVerifyShares vr dah axis index rest (i + 1)
 
-/-- the rebuild loop `for (n, share) in rebuilt_shares.iter().enumerate()`: namespace of the leaf
-    (`unwrapFixed = false`: `Namespace::from_raw(..).unwrap()`), then `nmt.push_leaf` with its order check
-    against `hi` (= `highest_ns`).  `ok none` = an early `return Ok(())` ("befp is legit"),
-    `ok (some hs)` = the leaf hashes of the rebuilt tree. -/
+/-- namespace of the `n`-th rebuilt leaf: `Namespace::from_raw(&share[..NS_SIZE])` for the first `k` leaves
+    (`unwrapFixed = false`: `.unwrap()`; `true`: `ok none` = "befp is legit"), `PARITY_SHARE` for the rest -/
+def befpLeafNs (unwrapFixed : Bool) (k n : Nat) (sh : Bytes) : Out (Option Bytes) :=
+  if n < k then
+    if sh.length < NS_SIZE then .panic .slice
+    else
+      match Namespace.fromRaw (sh.take NS_SIZE) with
+      | .ok ns => .ok (some ns)
+      | .error _ => if unwrapFixed then .ok none else .panic .befpUnwrap
+  else .ok (some parityNs)
+
+/-- the rebuild loop `for (n, share) in rebuilt_shares.iter().enumerate()`: namespace of the leaf, then
+    `nmt.push_leaf` with its order check against `hi` (= `highest_ns`).  `ok none` = an early
+    `return Ok(())` ("befp is legit"), `ok (some hs)` = the leaf hashes of the rebuilt tree. -/
 def befpRebuild (unwrapFixed : Bool) (H : HashFn) (k : Nat) : List Bytes → Nat → Bytes → Out (Option (List NsHash))
   | [], _, _ => .ok (some [])
   | sh :: rest, n, hi =>
-    let ns? : Out (Option Bytes) :=
-      if n < k then
-        if sh.length < NS_SIZE then .panic .slice
-        else
-          match Namespace.fromRaw (sh.take NS_SIZE) with
-          | .ok ns => .ok (some ns)
-          | .error _ => if unwrapFixed then .ok none else .panic .befpUnwrap
-      else .ok (some parityNs)
-    ns?.bind fun o =>
-      match o with
-      | none => .ok none
-      | some ns =>
-        if ltB ns hi then .ok none          -- push_leaf refused: "we couldn't rebuild the nmt"
-        else
-          (befpRebuild unwrapFixed H k rest (n + 1) ns).bind fun r =>
-            match r with
-            | none => .ok none
-            | some hs => .ok (some (hashLeaf H ns sh :: hs))
+    match befpLeafNs unwrapFixed k n sh with
+    | .panic s => .panic s
+    | .err => .err
+    | .ok none => .ok none
+    | .ok (some ns) =>
+      if ltB ns hi then .ok none          -- push_leaf refused: "we couldn't rebuild the nmt"
+      else
+        match befpRebuild unwrapFixed H k rest (n + 1) ns with
+        | .panic s => .panic s
+        | .err => .err
+        | .ok none => .ok none
+        | .ok (some hs) => .ok (some (hashLeaf H ns sh :: hs))
 
 /-- `validate` up to the reconstruction: `ok (rebuilt_shares, ods_width)` -/
 def befpPrefix (vr : NsProof → NsHash → List Bytes → Bytes → Except Nmt.Err Unit)
